@@ -20,6 +20,7 @@ func argFrom(name, from string) targ   { return targ{Name: name, Form: "from", F
 func p1(name, form string) pred        { return pred{{prim{name, form}}} }
 
 var terms6 = []string{"ta", "tb", "tc", "td", "te", "tf"}
+var terms8 = []string{"ta", "tb", "tc", "td", "te", "tf", "tg", "th"}
 
 // probe2 is a nonterminal whose language names the valuation of F and G.
 func probe2Alts() []*talt {
@@ -407,6 +408,66 @@ func genL(quick bool, yield func(*tgram) bool) {
 							}
 							if !yield(g) {
 								return
+							}
+						}
+					}
+				}
+			}
+		}
+	}
+
+	// Two lookahead flags V, W and a nonterminal M with two references in entry position that set
+	// lookahead flags explicitly (every combination, so both orders), reached by propagation only:
+	// what M accepts is the union over its entry references of (what the target accepts minus what
+	// that reference sets), reference by reference.
+	type la2 struct{ v, w string }
+	argsOf := func(x la2) []targ {
+		var out []targ
+		if x.v != "" {
+			out = append(out, arg("V", x.v))
+		}
+		if x.w != "" {
+			out = append(out, arg("W", x.w))
+		}
+		return out
+	}
+	explicit := []la2{{"", ""}, {"+", ""}, {"~", ""}, {"", "+"}, {"", "~"}, {"+", "+"}, {"~", "+"}}
+	sArgs := []la2{{"+", ""}, {"", "+"}, {"+", "+"}, {"", ""}}
+	for _, order := range []bool{false, true} {
+		for _, sa := range sArgs {
+			for aBody := 0; aBody < 3; aBody++ {
+				for _, t1 := range []string{"D", "C"} {
+					for _, t2 := range []string{"D", "C"} {
+						for _, x1 := range explicit {
+							for _, x2 := range explicit {
+								g := &tgram{Inputs: []string{"S"}, Terms: terms8}
+								g.Flags = []gflag{{Name: "V", Lookahead: true}, {Name: "W", Lookahead: true}}
+								if order {
+									g.Flags[0], g.Flags[1] = g.Flags[1], g.Flags[0]
+								}
+								m := &tnt{Name: "M", Alts: []*talt{A(R(t1, argsOf(x1)...), T("tf")), A(R(t2, argsOf(x2)...))}}
+								var aAlts []*talt
+								switch aBody {
+								case 0:
+									aAlts = []*talt{A(R("M")), A(R("D"), T("tg"))}
+								case 1:
+									aAlts = []*talt{A(R("M"))}
+								case 2:
+									aAlts = []*talt{A(R("D"), T("tg")), A(T("th"), R("M")), A(R("M"), T("th"))}
+								}
+								g.NTs = []*tnt{
+									// the last two alternatives make V and W parameters of D and C in every grammar
+									{Name: "S", Alts: []*talt{A(R("A", argsOf(sa)...)),
+										A(T("th"), T("th"), R("D", arg("V", "+"), arg("W", "+"))),
+										A(T("th"), T("tg"), R("C", arg("V", "+"), arg("W", "+")))}},
+									{Name: "A", Alts: aAlts},
+									m,
+									{Name: "D", Alts: []*talt{GA(p1("V", ""), T("ta")), GA(p1("W", ""), T("tb")), A(T("tc"))}},
+									{Name: "C", Alts: []*talt{GA(p1("V", ""), T("td")), GA(p1("W", ""), T("th")), A(T("te"))}},
+								}
+								if !yield(g) {
+									return
+								}
 							}
 						}
 					}
